@@ -552,3 +552,35 @@ func (g *Gen) opRemove() (sim.Op, bool) {
 		return sim.Op{K: "rm.elem", I: []int{r.Range(-2, 12)}}, true
 	}
 }
+
+// Markdown generates a Markdown source (a producer of documents). Lists use
+// the process-wide numbering registry, so they are optional.
+func (g *Gen) Markdown(lists bool) string {
+	r := g.R
+	var sb []byte
+	add := func(s string) { sb = append(sb, s...) }
+	n := r.Range(2, 8)
+	for i := 0; i < n; i++ {
+		switch x := r.Intn(9); {
+		case x == 0:
+			add("# " + g.PlainText() + "\n\n")
+		case x == 1:
+			add("### " + g.PlainText() + " *em* **strong**\n\n")
+		case x == 2:
+			add("> quote " + g.PlainText() + "\n\n")
+		case x == 3:
+			add("```\ncode " + g.PlainText() + "\n  indented\n```\n\n")
+		case x == 4:
+			add("| a | b |\n|---|:-:|\n| " + g.PlainText() + " | 2 |\n\n")
+		case x == 5 && lists:
+			add("- item " + g.PlainText() + "\n- [x] task\n  1. nested\n\n")
+		case x == 6:
+			add("inline `code` ~~gone~~ [link](http://example.com) $x^2$\n\n")
+		case x == 7:
+			add("---\n\n")
+		default:
+			add(g.Text() + " plain paragraph\nsoft break\n\n")
+		}
+	}
+	return string(sb)
+}
